@@ -68,6 +68,19 @@ pub trait Chunked {
     }
 }
 
+/// a NON-mirrored trait whose provided methods are no-op hooks with empty bodies, one per borrowed receiver kind
+#[unimock(api = HooksMock)]
+pub trait Hooks {
+    fn before(&mut self) {}
+    fn after(&self) {}
+    fn pinned(self: std::pin::Pin<&mut Self>) {}
+    fn count(&self) -> u8 {
+        3
+    }
+}
+
+impl Hooks for Plain {}
+
 #[derive(Clone)]
 pub struct Core {
     accepted: Rc<RefCell<VecDeque<usize>>>,
@@ -123,7 +136,7 @@ fn hex(s: &str) -> Vec<u8> {
 }
 
 /// runs the ops on one implementor; `fin` consumes it (always the last op)
-fn drive<T: upstream::Chunked>(mut t: T, ops: &[String], side: &str, out: &mut impl std::io::Write) {
+fn drive<T: upstream::Chunked + Hooks + Unpin>(mut t: T, ops: &[String], side: &str, out: &mut impl std::io::Write) {
     use std::panic::{catch_unwind, AssertUnwindSafe};
     for (k, op) in ops.iter().enumerate() {
         let (name, arg) = op.split_once(':').unwrap_or((op.as_str(), ""));
@@ -138,6 +151,13 @@ fn drive<T: upstream::Chunked>(mut t: T, ops: &[String], side: &str, out: &mut i
             "all" => format!("{:?}", t.put_all(&hex(arg))),
             "put" => format!("{}", t.put(&hex(arg))),
             "desc" => t.describe(),
+            "hooks" => {
+                // unmocked no-op hooks (empty default bodies) through every borrowed receiver kind: nothing happens
+                Hooks::before(&mut t);
+                Hooks::after(&t);
+                Hooks::pinned(std::pin::Pin::new(&mut t));
+                format!("hooks:{}", Hooks::count(&t))
+            }
             "consts" => format!("{}/{}/{}", T::CHUNK, T::PAD, T::LIMIT),
             _ => panic!("bad op {op}"),
         }));
